@@ -56,6 +56,13 @@ UNKNOWN_NAMES = [
     ['default', '\\begin{itemize}\\item \\begin{unkenvc}e\\end{unkenvc}\\end{itemize}\\unkmaca'],
     ['extended', '\\begin{unkenva}a\\unkmaca\\end{unkenva}'],
     ['extended', '\\begin{unkenvb}a\\unkmacb\\end{unkenvb}'],
+    # the same context-extending environment met over different surrounding definitions: at top
+    # level (\textbf takes an argument) and inside defenvb (\textbf takes none, \entry takes two)
+    ['extdelta', '\\begin{defenv}\\textbf{x}\\entry[a]\\end{defenv}'],
+    ['extdelta', '\\begin{defenvb}[o]\\begin{defenv}\\textbf{x}\\entry[a]\\end{defenv}\\end{defenvb}'],
+    ['extdelta', '\\begin{defenv}\\begin{defenvb}[o]\\entry{a}{b}\\textbf{c}\\end{defenvb}\\entry[d]\\end{defenv}'],
+    ['extdelta2', '\\begin{defenv}\\textbf{x}\\entry[a]\\end{defenv}'],
+    ['extdelta2', '\\begin{defenvb}[o]\\begin{defenv}\\textbf{x}\\entry[a]\\end{defenv}\\end{defenvb}'],
     ['extdelta', '\\begin{unkenva}\\entry[a]b\\end{unkenva}'],
     ['extdelta', '\\begin{unkenvb}\\entry[a]b\\end{unkenvb}'],
 ]
